@@ -6,14 +6,21 @@ import vlib
 
 PROP = "C15"
 ENGINE = "undo"
-LEAN_MODULES = ["RtoscModel.Props.C15"]
+LEAN_MODULES = ["RtoscModel.Props.C15", "RtoscModel.Props.C15Ports"]
 THEOREMS = ["Rtosc.Undo.reachable_wf", "Rtosc.Undo.seek_back_emits", "Rtosc.Undo.seek_fwd_emits",
             "Rtosc.Undo.seek_clamped", "Rtosc.Undo.record_truncates_redo", "Rtosc.Undo.window_is_two",
             "Rtosc.Undo.tmpSize_is_256", "Rtosc.Undo.fits_iff_short",
             "Rtosc.Undo.merge_within_window", "Rtosc.Undo.append_outside_window",
             "Rtosc.Undo.merge_or_append_exhaustive", "Rtosc.Undo.cap_retained",
             "Rtosc.Undo.undo_all_restores", "Rtosc.Undo.redo_all_restores",
-            "Rtosc.Undo.chain_invariant_reachable", "Rtosc.Undo.undo_redo_roundtrip"]
+            "Rtosc.Undo.chain_invariant_reachable", "Rtosc.Undo.undo_redo_roundtrip",
+            # end-to-end clause over C14's port model (module Props/C15Ports.lean)
+            "Rtosc.Undo.portSem_of_portOK", "Rtosc.Undo.port_msg_refines_set", "Rtosc.Undo.ports_refine_app",
+            "Rtosc.Undo.ports_chain_invariant_reachable", "Rtosc.Undo.ports_undo_all_restores",
+            "Rtosc.Undo.ports_redo_all_restores", "Rtosc.Undo.ports_undo_redo_roundtrip", "Rtosc.Undo.encFld_inj",
+            "Rtosc.Undo.exTbl_ok", "Rtosc.Undo.exFlds_ok",
+            "Rtosc.Undo.undo_all_unstable_initial_counterexample", "Rtosc.Undo.negzero_not_recorded_counterexample",
+            "Rtosc.Undo.toggle_not_recorded_counterexample"]
 HARNESS = {"src": ["undo.cpp"], "deps": ["common.h"]}
 STATELESS = True
 RULE = ("one case = one whole history on a fresh UndoHistory: 0..60 operations record(address,tag,old,new) / "
@@ -49,9 +56,23 @@ ASSUMPTIONS = ["event messages are '/undo_change' 's<t><t>' path old new with <t
                "place (first old value, last new value, time stamp renewed, so a run of changes each within 2 s of the "
                "previous one is one undo step); an implementation that moved the merged event to the newest position or "
                "counted the window from the first event of the run would be reported as a difference",
-               "the model mirrors undo-history.cpp with fixes/C15-merge-scan.patch applied"]
+               "the model mirrors undo-history.cpp with fixes/C15-merge-scan.patch applied",
+               "end-to-end theorems over C14's port model (ports_* in Props/C15Ports.lean): the port table consists of "
+               "macro-generated scalar ports rParam / rParamI / rParamF / rOption / rToggle as C14 models them "
+               "(Rtosc.Undo.PortOK: metadata the callback can read, a declared range that C14's clamping theorems cover, "
+               "an address other than '/undo_change' and shorter than 248 bytes) at pairwise different addresses "
+               "(TableOK); the initial field values are stable (FieldsOK / Stable: of the storage type and inside the "
+               "declared range; floats neither NaN nor -0.0); messages lie in ArgsOK (a query, or a first argument of the "
+               "port's type; rOption: an integer of the storage type - symbol arguments are not covered; floats neither "
+               "NaN nor -0.0). Each restriction is necessary: three ..._counterexample theorems. The wiring of the "
+               "application (every '/undo_change' reply is recorded at the current clock, undo/redo messages are "
+               "dispatched back into the ports with recording disabled, the zeroed buffer is skipped) is the definition "
+               "Rtosc.Undo.PApp.step, written after test/undo-test.cpp and the E lines of harness/undo.cpp"]
 TRUSTED = ["hand-written model RtoscModel/Undo.lean of UndoHistory::recordEvent/seekHistory, "
            "UndoHistoryImpl::mergeEvent/rewind/replay; std::deque as a list",
+           "RtoscModel/UndoPorts.lean (PApp: C14's port model wired to the undo history) is a Lean definition that is "
+           "not executed by the driver; C14's model of Ports dispatch and of the port-sugar callbacks "
+           "(RtoscModel/Param/Port.lean, Sugar.lean) is tied to the code by C14's correspondence run, not by C15's",
            "translator tools/props/c15.py:translate_undo_consts (max_history_size, merge window, tmp size)",
            "rtosc_amessage/rtosc_argument move 4-byte payloads bit for bit (covered by C01)",
            "interposition of time/clock_gettime/gettimeofday/timespec_get by the harness executable (self-tested at "
@@ -63,11 +84,28 @@ LEVEL_TEXT = ("Lean theorems (seek_back_emits, seek_fwd_emits, seek_clamped, rec
               "tmpSize_is_256 (fits_iff_short: the domain hypothesis AddrsFit is exactly 'address shorter than 248 bytes'); "
               "the model is compared with the compiled implementation (ASan/UBSan, controlled clock at present-day, "
               "2^31, 2^32 and negative origins) on thousands of generated histories per run, and an independent Python "
-              "reference of the property is evaluated on the implementation's output")
-LEVEL_NOTE = ("not proved / weaker than the prose: (1) the end-to-end theorem chain_invariant_reachable is about the "
-              "hand-written application step Undo.App.step (a port reports a change with the true old value), not about "
-              "C14's Lean model of the rParam callbacks; that the real rParam/rParamI ports behave like App.step is only "
-              "tested (E lines: four ports, two char and two int fields). (2) Events carry 32-bit payloads only (i f c). "
+              "reference of the property is evaluated on the implementation's output. The end-to-end clause is also proved "
+              "over C14's Lean model of the parameter ports (Props/C15Ports.lean): an application built from rParam / "
+              "rParamI / rParamF / rOption / rToggle ports (Param.dispatch and the callbacks of C14; '/undo_change' replies "
+              "recorded; undo messages dispatched back) refines the hand-written App.step - port_msg_refines_set: the "
+              "events a port emits are exactly the event App.step records (old = the field before, new = the stored, "
+              "clamped value, none when the stored value did not change), using C14's undo_event_iff_changed_* and "
+              "stored value theorems; ports_refine_app for whole histories - and ports_chain_invariant_reachable, "
+              "ports_undo_all_restores, ports_redo_all_restores, ports_undo_redo_roundtrip carry the end-to-end theorems "
+              "over to the fields behind real ports, for all port tables, initial values and histories in the stated domain")
+LEVEL_NOTE = ("not proved / weaker than the prose: (1) the port-level end-to-end theorems (ports_*) hold in the domain "
+              "PortOK / Stable / ArgsOK only; outside it C14's ports do NOT behave like App.step - three findings, each "
+              "proved on the model: an initial field value outside the declared range is not restored by undo, the port "
+              "clamps the undo message (undo_all_unstable_initial_counterexample); +0.0 -> -0.0 on an rParamF port "
+              "changes the stored bits without an undo event and a NaN is reported as changed even when the bits are equal, "
+              "so for floats the refinement holds modulo IEEE equality only (negzero_not_recorded_counterexample); rToggle "
+              "ports have no rCAPPLY and never report to the undo history (toggle_not_recorded_counterexample). Not covered "
+              "by the port-level theorems: array ports (rArrayI/F/T/Option), rString, rOption set by symbol, fields of the "
+              "wide integer types (C14's intCbW), two ports sharing one address; that seeks leave the field of a "
+              "non-undoable port untouched is not stated. PApp is a Lean definition: it is not run against the compiled "
+              "library - the E lines of the correspondence run still execute App.step next to four real ports (two char, "
+              "two int fields), and that Param.dispatch / the callbacks are what the library does is C14's correspondence. "
+              "(2) Events carry 32-bit payloads only (i f c). "
               "(3) merge_within_window is stated with `now - t <= 2`, which includes negative ages because the code "
               "does; the check makes no claim about a clock stepping backwards. (4) tmpSize_is_256 is an equality on "
               "purpose: enlarging the buffer also fails it, and the domain statement then has to be re-issued. "
